@@ -201,17 +201,20 @@ var _ utils.PriorityQueue
 //@ requires [C01 not-a-tombstone] $arg1.(*hnswVertex) != nil && ($arg1.(*hnswVertex) == entrypoint || $arg1.(*hnswVertex).deleted != 1)
 //@ end
 //@ assume [the queue predicate qP is read as: the item was made during this call] forall it *utils.PriorityQueueItem :: qP(it) == fresh(it)
+//@ ensures [C01 beam-nonempty] ef >= 1 ==> len(qs(ret.(*utils.priorityQueue).queue)) >= 1
 //@ ensures [C01 beam-contents] istype(ret, *utils.priorityQueue) && ret.pay != 0 && hdyn(ret.(*utils.priorityQueue).queue) && forall k int :: 0 <= k && k < len(qs(ret.(*utils.priorityQueue).queue)) ==> beamItem(this, query, entrypoint, qs(ret.(*utils.priorityQueue).queue)[k]) && allocated(qs(ret.(*utils.priorityQueue).queue)[k]) && istype(qs(ret.(*utils.priorityQueue).queue)[k], utils.PriorityQueueItem)
 //@ requires [C12 ef-fits] 0 <= ef && ef <= memcap() && this.config != nil && 0 <= this.config.mMax0 && this.config.mMax0 <= 65536
 //@ modifies cells[utils.minPriorityQueue], cells[utils.maxPriorityQueue], mem[*utils.PriorityQueueItem]
 //@ loop 1
 //@ invariant [C01 made-here] forall it *utils.PriorityQueueItem :: fresh(it) ==> beamItem(this, query, entrypoint, it)
 //@ invariant [C01 result-queue] istype(resultVertices, *utils.priorityQueue) && resultVertices.pay != 0 && fresh(resultVertices.(*utils.priorityQueue)) && wfpq(resultVertices.(*utils.priorityQueue))
+//@ invariant [C01 beam-nonempty] ef >= 1 ==> len(qs(resultVertices.(*utils.priorityQueue).queue)) >= 1
 //@ invariant [candidate-queue] istype(candidateVertices, *utils.priorityQueue) && candidateVertices.pay != 0 && wfpq(candidateVertices.(*utils.priorityQueue))
 //@ invariant [separate-queues] qs(candidateVertices.(*utils.priorityQueue).queue).ref != qs(resultVertices.(*utils.priorityQueue).queue).ref && allocated(qs(candidateVertices.(*utils.priorityQueue).queue)) && allocated(qs(resultVertices.(*utils.priorityQueue).queue)) && candidateVertices.(*utils.priorityQueue) != resultVertices.(*utils.priorityQueue) && isMin(candidateVertices.(*utils.priorityQueue).queue) && isMax(resultVertices.(*utils.priorityQueue).queue)
 //@ loop 2
 //@ invariant [C01 made-here] forall it *utils.PriorityQueueItem :: fresh(it) ==> beamItem(this, query, entrypoint, it)
 //@ invariant [C01 result-queue] istype(resultVertices, *utils.priorityQueue) && resultVertices.pay != 0 && fresh(resultVertices.(*utils.priorityQueue)) && wfpq(resultVertices.(*utils.priorityQueue))
+//@ invariant [C01 beam-nonempty] ef >= 1 ==> len(qs(resultVertices.(*utils.priorityQueue).queue)) >= 1
 //@ invariant [candidate-queue] istype(candidateVertices, *utils.priorityQueue) && candidateVertices.pay != 0 && wfpq(candidateVertices.(*utils.priorityQueue))
 //@ invariant [separate-queues] qs(candidateVertices.(*utils.priorityQueue).queue).ref != qs(resultVertices.(*utils.priorityQueue).queue).ref && allocated(qs(candidateVertices.(*utils.priorityQueue).queue)) && allocated(qs(resultVertices.(*utils.priorityQueue).queue)) && candidateVertices.(*utils.priorityQueue) != resultVertices.(*utils.priorityQueue) && isMin(candidateVertices.(*utils.priorityQueue).queue) && isMax(resultVertices.(*utils.priorityQueue).queue)
 
@@ -222,10 +225,12 @@ var _ utils.PriorityQueue
 //@ at call priorityQueue).Pop
 //@ requires [C01 items-known] old(istype(neighbors, *utils.priorityQueue) && allQ(neighbors.(*utils.priorityQueue).queue)) ==> allQ($arg0.queue)
 //@ end
+//@ ensures [C01 keeps-one] old(istype(neighbors, *utils.priorityQueue) && neighbors.pay != 0 && hdyn(neighbors.(*utils.priorityQueue).queue) && len(qs(neighbors.(*utils.priorityQueue).queue)) >= 1) && k >= 1 ==> len(qs(ret.(*utils.priorityQueue).queue)) >= 1
 //@ ensures [C01 same-queue] ret == neighbors && (old(istype(neighbors, *utils.priorityQueue) && allQ(neighbors.(*utils.priorityQueue).queue)) ==> allQ(ret.(*utils.priorityQueue).queue))
 //@ modifies cells[utils.minPriorityQueue], cells[utils.maxPriorityQueue], mem[*utils.PriorityQueueItem]
 //@ loop 1
 //@ invariant [C01 items-known] old(istype(neighbors, *utils.priorityQueue) && allQ(neighbors.(*utils.priorityQueue).queue)) ==> allQ(neighbors.(*utils.priorityQueue).queue)
+//@ invariant [C01 keeps-one] old(istype(neighbors, *utils.priorityQueue) && neighbors.pay != 0 && hdyn(neighbors.(*utils.priorityQueue).queue) && len(qs(neighbors.(*utils.priorityQueue).queue)) >= 1) && k >= 1 ==> len(qs(neighbors.(*utils.priorityQueue).queue)) >= 1 && hdyn(neighbors.(*utils.priorityQueue).queue)
 
 //@ func (*index.Hnsw).selectNeighborsHeuristic
 //@ props C02 C01
@@ -317,6 +322,7 @@ var _ utils.PriorityQueue
 //@ set lastV = $ret0.value.(*hnswVertex)
 //@ end
 //@ ensures [C01 one-slot-per-beam-item] isnil(ret1) ==> len(ret0) <= beam
+//@ ensures [C01 nonempty-answer] isnil(ret1) && this.config.searchAlgorithm == 0 && k >= 1 && old(this.entrypoint != nil && this.len >= 1 && this.len < 9223372036854775808) ==> len(ret0) >= 1
 //@ ensures [C01 results-are-beam-items] isnil(ret1) && this.config.searchAlgorithm == 0 ==> forall j int :: 0 <= j && j < len(ret0) ==> exists v *hnswVertex :: v.deleted != 1 && ret0[j].Id == v.id && ret0[j].Metadata == v.metadata && ret0[j].Score == Distance(this.space, query, v.vector)
 //@ ensures [never-nil-nil] isnil(ret1) ==> !isnil(ret0)
 //@ modifies cells[utils.minPriorityQueue], cells[utils.maxPriorityQueue], mem[*utils.PriorityQueueItem]
